@@ -119,6 +119,19 @@ func c10Formats() []c10Fmt {
 				'C': `<v1:o id="3"><v1:N>zz</v1:N></v1:o>`,
 				'N': `<v2:o id="8"><v1:N>8</v1:N></v2:o>`,
 				'M': `<o id="9"><v1:N>9</v1:N></o>`}},
+		// a record whose transform succeeds but whose result has no JSON form (float NaN / Inf): that failure
+		// comes after the transform, when the result is encoded - and affects that record only
+		{Name: "json-nan", Schema: `{` + h("json") + `,"transform_declarations":{"FINAL_OUTPUT":{"xpath":"/*","object":{"id":{"xpath":"id"},"v":{"xpath":"v","type":"float"}}}}}`,
+			Prefix: "[", Suffix: "]", Sep: ",", Syms: "ABGH", Rec: map[byte]string{'A': `{"id":1,"v":"1.5"}`, 'B': `{"id":2,"v":2}`, 'G': `{"id":3,"v":"NaN"}`, 'H': `{"id":4,"v":"-Inf"}`}},
+		{Name: "xml-nan", Schema: `{` + h("xml") + `,"transform_declarations":{"FINAL_OUTPUT":{"xpath":"/r/o","object":{"id":{"xpath":"@id"},"v":{"xpath":"v","type":"float"}}}}}`,
+			Prefix: "<r>", Suffix: "</r>", Syms: "ABGH", Rec: map[byte]string{'A': `<o id="1"><v>1.5</v></o>`, 'B': `<o id="2"><v>2</v><w/></o>`, 'G': `<o id="3"><v>NaN</v></o>`, 'H': `<o id="4"><v>Inf</v></o>`}},
+		{Name: "csv2-nan", Schema: `{` + h("csv2") + `,"file_declaration":{"delimiter":",","records":[{"name":"H","header":"^H","is_target":true,"columns":[{"name":"id","index":2},{"name":"v","index":3}],"child_records":[{"name":"D","header":"^D","columns":[{"name":"w","index":2}]}]}]},
+ "transform_declarations":{"FINAL_OUTPUT":{"object":{"id":{"xpath":"id"},"v":{"xpath":"v","type":"float"},"w":{"array":[{"xpath":"D/w"}]}}}}}`,
+			Syms: "ABGH", Rec: map[byte]string{'A': "H,1,1.5\nD,a\n", 'B': "H,2,2\n", 'G': "H,3,NaN\nD,b\nD,c\n", 'H': "H,4,+Inf\n"}},
+		{Name: "edi-nan", Schema: `{` + h("edi") + `,"file_declaration":{"segment_delimiter":"~","element_delimiter":"*","segment_declarations":[{"name":"ISA","child_segments":[
+   {"name":"grp","type":"segment_group","is_target":true,"min":0,"max":-1,"child_segments":[{"name":"H","elements":[{"name":"id","index":1},{"name":"v","index":2}]},{"name":"D","min":0,"max":-1,"elements":[{"name":"w","index":1}]}]}]},{"name":"IEA"}]},
+ "transform_declarations":{"FINAL_OUTPUT":{"object":{"id":{"xpath":"H/id"},"v":{"xpath":"H/v","type":"float"},"w":{"array":[{"xpath":"D/w"}]}}}}}`,
+			Prefix: "ISA~", Suffix: "IEA~", Syms: "ABGH", Rec: map[byte]string{'A': "H*1*1.5~D*a~", 'B': "H*2*2~", 'G': "H*3*NaN~D*b~D*c~", 'H': "H*4*Inf~"}},
 		// records that are members of JSON objects (keyed by position) inside containers that repeat, and
 		// a target xpath with a filter: F is a record the filter turns down, '|' starts the next container;
 		// neither is a record, and neither may change what the records around it give
